@@ -125,6 +125,8 @@ func genCLICases(w *caseWriter, bin string, rng *rand.Rand, st *pkgStats, tier s
 			{"out/latest" + exts[format], "link"},
 			// existing directories whose last element has a dot in it
 			{"outdir.d", "dir"}, {"out/v1.2.3", "dir"}, {".packages", "dir"},
+			// a directory reached through a symbolic link is a directory
+			{"linked-outdir", "dirlink"},
 		}
 		for _, tc := range targets {
 			for _, flag := range []string{format, ""} {
@@ -134,6 +136,10 @@ func genCLICases(w *caseWriter, bin string, rng *rand.Rand, st *pkgStats, tier s
 				must(os.MkdirAll(filepath.Join(run, "outdir"), 0o755))
 				if tc.kind == "dir" {
 					must(os.MkdirAll(filepath.Join(run, tc.target), 0o755))
+				}
+				if tc.kind == "dirlink" {
+					must(os.MkdirAll(filepath.Join(run, "real-outdir"), 0o755))
+					must(os.Symlink("real-outdir", filepath.Join(run, tc.target)))
 				}
 				// the target already exists and is longer than the package: it is replaced, not written over
 				if tc.kind == "file" && flag == "" && format != "archlinux" && strings.HasSuffix(tc.target, exts[format]) {
@@ -169,10 +175,21 @@ func genCLICases(w *caseWriter, bin string, rng *rand.Rand, st *pkgStats, tier s
 					}
 				}
 				created := listFiles(run)
-				w.line("cli %d %s %s %s %s %d %d", n, xs(format), xs(flag), xs(tc.target), xs(conv), b2i(tc.kind == "dir"), code)
+				w.line("cli %d %s %s %s %s %d %d", n, xs(format), xs(flag), xs(tc.target), xs(conv), b2i(tc.kind == "dir" || tc.kind == "dirlink"), code)
 				for _, f := range created {
 					if pointee != "" && f == pointee {
 						continue // judged through the link below
+					}
+					if tc.kind == "dirlink" {
+						// what lies in the directory the link names is what lies "in" the requested directory; the link itself stays
+						if f == tc.target {
+							if li, err := os.Lstat(filepath.Join(run, f)); err == nil && li.Mode()&os.ModeSymlink != 0 {
+								continue
+							}
+						} else if strings.HasPrefix(f, "real-outdir/") {
+							w.line("clifile %s %s", xs(tc.target+strings.TrimPrefix(f, "real-outdir")), xs(magicOf(filepath.Join(run, f))))
+							continue
+						}
 					}
 					magic := magicOf(filepath.Join(run, f))
 					if pointee != "" && f == filepath.Clean(tc.target) {
